@@ -235,6 +235,7 @@ def run_shape(shape, tier):
         sqlprogs.setup_leaves(ctx, env, prog, 1)
         templates.declare(ctx, env, shape["params"], shape["cons"])
         expression_history(env, prog)
+        sqlprogs.history(env, prog)
         try:
             rel = build(prog, env)
         except (ColumnError, EngineError) as e:
